@@ -629,11 +629,14 @@ PROPS["C16"] = {
     "generators": [("c16", 64000, 1600000)],
     "modules": ["S2.Generated.EdgeNumFns", "S2.EdgeNum", "S2.IA", "S2.Pred", "S2.Exact", "S2.Contain", "S2.STUV", "S2.F64"],
     "rule": "op isect: crossing edge pairs (emitted only when s2.CrossingSign == Cross and the two great circles are exactly identical or "
-            "at an angle >= 1.05e-15, checked in exact rational arithmetic by the generator and again by the oracle) from 8 classes: generic "
+            "at an angle >= 1.05e-15, checked in exact rational arithmetic by the generator and again by the oracle) from 9 classes: generic "
             "(crossing angle log-uniform 1e-15..pi/2, lengths log-uniform 1e-300..3.1), tiny edges around axis points (1e-300..1e-9), crossing "
             "at / 1e-300..1e-3 from an endpoint incl. an endpoint exactly on / +-1..2 ulps off the other great circle, small angles with long "
             "edges, exactly collinear overlapping edges on the great circles x=0, y=0, z=0, x=y in every interleaving and orientation and "
             "tilted by 2e-15..1e-9, nearly antipodal endpoints (pi - 1e-9 .. pi - 0.1), equal-length mirror images (compareEdges tie-break), "
+            "collinear overlapping edges with PARALLEL but not bit-equal vertices (finding D50: a vertex of one edge is a copy of a vertex / "
+            "the midpoint of the other edge rescaled by 1 +- 1..4 ulps, exactly for axis points and points (2^-k, 1, 0), rounded otherwise; "
+            "edges ending at / touching at / containing the shared direction, the same edge given twice), "
             "uniform.  Each line: Intersection under all 8 argument permutations + intersectionStable (accept flag, point) + "
             "intersectionExact + compareEdges through the hooks.  Model comparison: all of them bit-exact.  Judge (exact integer "
             "arithmetic): 8 results bit-identical (clause bitident; bitident-zero-sign when they differ only in the sign of a zero), "
@@ -643,16 +646,21 @@ PROPS["C16"] = {
             "KNOWN class F5 has its own clause hemi-antipodal (both edges within 2^-20 rad of antipodal); three such inputs are emitted by every shard. "
             "non-trivial = every isect line; distinct = distinct argument tuples",
     "nontrivial": lambda l: l.startswith("isect "),
-    "trusted_base": ["NOT proved (partial): the 8*2^-53 accuracy bound, unit length, and the sign symmetry of the float kernels "
-                     "(KernelSym) — judged on every line by the exact-arithmetic oracle",
+    "trusted_base": ["NOT proved (partial): the 8*2^-53 accuracy bound and unit length — judged on every line by the exact-arithmetic oracle",
                      "the enclosure eps - eps^3/4 < sin eps (Mathlib Real.sin_gt_sub_cube) is used by the judge; cited, not re-proved",
                      "Go's math/big.Float never rounds at 2^26 bits on these inputs and Float64() rounds to nearest even "
                      "(modelled incl. the sign of zero; tied by bit-exact comparison of intersectionExact on every line)"],
     "assumptions": ["arguments are unit length within the Normalize guarantee and CrossingSign(a0,a1,b0,b1) == Cross; "
                     "crossing angle >= 1e-15 or exactly collinear (quantifier text)"],
-    "partial": ["UnitLengthClaim, AccuracyClaim, BitIdentityClaim, GoEqualityClaim are `def … : Prop` judged by the oracle; the inputs that refuted "
-                "them before the repairs F1-F4 are kept as kernel-checked regression examples; accuracyClaim_false records the KNOWN finding F5; "
-                "order_independence_partial / selection_order_independent: bit identity for kernels that are sign-symmetric up to the sign of zeros"],
+    "partial": ["BitIdentityClaim is PROVED in full for the repaired code (Properties/C16_Canonical.lean: bitIdentityClaim, "
+                "intersection_order_independent(_inContract); Intersection canonicalises its argument order once — repair D50 — so the 8 orders "
+                "execute literally the same computation on every input with finite points, non-degenerate edges and different smaller endpoints "
+                "(CanonInput, implied by InContract); no KernelSym / DecisiveAt / OccwSym / GenPos hypothesis); GoEqualityClaim follows wherever the "
+                "result has no NaN coordinate (goEquality_of_fin). "
+                "UnitLengthClaim, AccuracyClaim are `def … : Prop` judged by the oracle; the inputs that refuted the claims before the repairs F1-F4 "
+                "are kept as kernel-checked regression examples; accuracyClaim_false records the KNOWN finding F5; "
+                "Properties/C16_Sym.lean keeps the theorems about the PRE-repair code (intersectionOld) as regression witnesses: sign symmetry of the "
+                "real kernels (kernelSym_real), the then-necessary side conditions, bitIdentityClaimOld_false, bitIdentityOld_violated_in_contract (D50)"],
 }
 PROPS["C17"] = {
     # quick ~ 50 s on 16 cores (15 ms / line: ~50 soft-float distance evaluations per pedist line), thorough ~ 8 min
